@@ -217,6 +217,41 @@ def check_c17(tier):
                       "against TraceLifecycle.tla (tests build, at least one test per declared packet, all pass); distinct = (target, program, outcome)")
 
 
+def crosscheck_real_lua(results):
+    try:
+        import lua_real
+        lua_real.lib()
+    except Exception as e:          # library not present: say so, the interpreter alone remains the trusted base
+        return {"available": False, "why": str(e)[:200]}
+    compared = agree = 0
+    for res in results:
+        s = res["sessions"].get("lua")
+        if res["compile"]["rc"] != 0 or not s or s.get("unsupported") or s.get("crash") or not s.get("file"):
+            continue
+        path = os.path.join(res["compile"]["dirs"]["lua"], s["file"])
+        try:
+            src = open(path, "rb").read()
+            rs = lua_real.RealSession(src, s["file"])
+        except Exception as e:
+            raise Infra("real-Lua cross-check could not load %s: %s" % (res["prog"]["id"], e))
+        if bool(rs.ok) != bool(s["build"]["ok"]):
+            raise Infra("interpreter and real Lua disagree on loading the dissector of %s: %s / %s" % (res["prog"]["id"], s["build"]["log"][-200:], rs.log))
+        byid = {e.get("id"): e for e in s["events"] if e.get("ev") == "dissect"}
+        for rec in res["msgs"]:
+            e = byid.get(rec["id"])
+            if e is None or not rs.ok:
+                continue
+            r = rs.dissect(bytes(rec["ref"]))
+            compared += 1
+            a1 = [(a.get("kind"), a.get("name"), a.get("off"), a.get("len")) for a in e.get("adds", [])]
+            a2 = [(a.get("kind"), a.get("name"), a.get("off"), a.get("len")) for a in r.get("adds", [])]
+            if bool(e.get("ok")) != bool(r.get("ok")) or a1 != a2:
+                raise Infra("interpreter and real Lua disagree on %s message %s: %s | %s" % (res["prog"]["id"], rec["label"], (e.get("err"), a1[:4]), (r.get("err"), a2[:4])))
+            agree += 1
+        rs.close()
+    return {"available": True, "dissections_compared": compared, "agree": agree}
+
+
 def check_c15(tier):
     rep = Report("C15", tier, "model_checking")
     if langs.get("lua") is None:
@@ -253,6 +288,11 @@ def check_c15(tier):
         rep.case(sig, False, "dissector of program %s on message '%s': %s %s" % (m["prog"], m.get("msg"), json.dumps(v.get("fails")), (m.get("err") or "")[:200]),
                  {"dsl": dsl.render(byid[m["prog"]]), "message": m.get("msg"), "fails": v.get("fails"), "lua_error": m.get("err"),
                   "how": "fin-protoc -l out; python3 harness/lua_interp.py out/root.lua --hex <canonical bytes>"})
+    # the interpreter is not trusted blindly: every dissector is also run under the real Lua 5.3 (liblua5.3 through
+    # ctypes, Wireshark stand-in written in Lua) and both must record the same adds; a disagreement is an
+    # infrastructure failure (exit 2), never a verdict
+    xc = crosscheck_real_lua(results)
+    rep.cov["real_lua_crosscheck"] = xc
     rep.cov["programs"] = len(progs)
     rep.cov["unsupported_by_interpreter"] = unsupported
     if unsupported:
